@@ -322,3 +322,31 @@ func VerifRun(sites []VerifSite, pkgs []VerifPkg) []VerifResult {
 	}
 	return results
 }
+
+// VerifSiteInfo is the identity of one site of an InferredMap fact, for the verification harness.
+type VerifSiteInfo struct {
+	File                string
+	Line, Col, Offset   int
+	PkgPath, Repr, Path string
+	IsDeep, Exported    bool
+	Determined, Nilable bool
+}
+
+// VerifFactSites lists the sites of an exported InferredMap fact in order.
+func VerifFactSites(f analysis.Fact) []VerifSiteInfo {
+	m, ok := f.(*InferredMap)
+	if !ok {
+		return nil
+	}
+	var out []VerifSiteInfo
+	m.OrderedRange(func(s primitiveSite, v InferredVal) bool {
+		info := VerifSiteInfo{File: s.Position.Filename, Line: s.Position.Line, Col: s.Position.Column, Offset: s.Position.Offset,
+			PkgPath: s.PkgPath, Repr: s.Repr, Path: string(s.ObjectPath), IsDeep: s.IsDeep, Exported: s.Exported}
+		if d, ok := v.(*DeterminedVal); ok {
+			info.Determined, info.Nilable = true, d.Bool.Val()
+		}
+		out = append(out, info)
+		return true
+	})
+	return out
+}
